@@ -338,6 +338,12 @@ length = T.length
 keylen = T.keylen
 
 
+def shape_of(a):
+    if a[0] == 'shaped':
+        return ('tuple', tuple(C(d) if isinstance(d, int) else d for d in a[2]))
+    return T.call('shape', (a,))
+
+
 PYKIND = {'dict': 'dict', 'list': 'list', 'tuple': 'tuple', 'np.ndarray': 'ndarray', 'pd.DataFrame': 'df',
           'pd.core.frame.DataFrame': 'df', 'str': 'str', 'int': 'int', 'float': 'float'}
 
@@ -356,6 +362,8 @@ def term_kind(fr, t):
     if tag == 'typed':
         return t[1]
     if tag == 'nd':
+        return 'ndarray'
+    if tag == 'shaped':
         return 'ndarray'
     if tag in ('arr', 'map') or (tag == 'call' and t[1] in ('array', 'zeros', 'asarray', 'flatten', 'append')):
         return 'ndarray' if not (tag == 'map') else 'list'
@@ -424,7 +432,7 @@ def external(fr, dotted, args, kw, extra, n):
         if name == 'nonzero' and len(args) == 1:
             return ('tuple', (T.call('flatnonzero', (a0,)),))
         if name == 'shape' and a0 is not None:
-            return T.call('shape', (a0,))
+            return shape_of(a0)
         if name == 'append' and len(args) == 2:
             return T.call('append', args, kw)
         if name == 'errstate':
@@ -671,6 +679,11 @@ def method(fr, recv, recv_node, name, args, kw, extra, n):
         return T.call('get_loc', (recv,) + tuple(args))
     # ---- ndarray
     if name == 'flatten':
+        if recv[0] == 'shaped' and all(isinstance(d, int) for d in recv[2]):
+            n_ = 1
+            for d in recv[2]:
+                n_ *= d
+            return ('shaped', recv[1] + '.flat', (n_,))
         return T.call('flatten', (recv,), kw)
     if name == 'reshape':
         return T.call('reshape', (recv,) + tuple(args), kw)
